@@ -136,6 +136,18 @@ pub const TR_RECORD: u8 = 23; // a = property index (terminal state, eventually-
 pub const TR_STOP: u8 = 24; // a = 1 finish_when, 2 target_state_count, 3 market shut down, 4 pop returned nothing, 5 control channel closed (on-demand)
 pub const TR_BLOCK: u8 = 25; // on-demand: a block starts, a = number of jobs drained from the front of the deque
 pub const TR_BLOCK_END: u8 = 26; // on-demand: the block returns early (everything discovered), a = number of drained jobs dropped unevaluated
+// simulation.rs (worker index via `set_worker`; `TR_PROP` / `TR_RECORD` are logged as in bfs.rs).  While tracing, every read of
+// the shared `discoveries` map / `state_count` that decides something and every write to them is serialised with its entry by
+// `trace_guard()`, so the order of the entries is the order of the operations.
+pub const TR_SIM_START: u8 = 40; // a trace starts, a = fingerprint of the chosen initial state
+pub const TR_SIM_ENTER: u8 = 41; // a = fingerprint of the state, b = depth (path length including it): `state_count` is incremented
+pub const TR_SIM_MISS: u8 = 42; // a = property index: `contains_key` found no discovery (a `TR_PROP` 1 / 2 entry follows)
+pub const TR_SIM_NEXT: u8 = 43; // a = fingerprint of the in-boundary successor the trace continues with
+pub const TR_SIM_END: u8 = 44; // the trace leaves its loop, a = 1 loop found, 2 no action left (1, 2: the recording loop follows), 3 depth limit, 4 out-of-boundary initial state, 5 everything discovered, 6 shutdown seen; b = path length
+pub const TR_SIM_DONE: u8 = 45; // the recording loop is over
+pub const TR_SIM_LEAVE: u8 = 46; // the worker leaves, a = 1 finish_when, 2 target_state_count, 3 shutdown seen
+pub const TR_SIM_CONT: u8 = 47; // neither finish_when nor target_state_count: the worker goes on to its next trace
+pub const TR_SIM_SHUTDOWN: u8 = 48; // the shutdown flag is about to be raised, a = 0 by the timeout thread, 1 by a panicking worker
 
 static TRACE_ON: std::sync::atomic::AtomicBool = std::sync::atomic::AtomicBool::new(false);
 static TRACE: std::sync::Mutex<Vec<TraceEntry>> = std::sync::Mutex::new(Vec::new());
